@@ -224,3 +224,109 @@ Example transparent_example :
         [RespPtr 4096; RespPtr 0; RespPtr 12288; RespUnit],
         Some (mkI (mkT 1 1099511627771) tally_zero (mkT 2 5) (mkT 1 1099511627776) 1 2 0 1099511627776)).
 Proof. vm_compute. reflexivity. Qed.
+
+(** * What was forwarded before a panic *)
+
+Lemma run_prof_trace_agrees inner chk reqs : forall slot hist,
+  run_prof inner chk slot hist reqs =
+  match run_prof_trace inner chk slot hist reqs with
+  | (log, rets, Ok s) => Ok (log, rets, s)
+  | (_, _, Panic p) => Panic p
+  end.
+Proof.
+  induction reqs as [|r rest IH]; intros slot hist.
+  - reflexivity.
+  - cbn [run_prof run_prof_trace]. destruct (profiler_step chk slot r) as [fs|p]; cbn [bind]; [|reflexivity].
+    rewrite IH. destruct (run_prof_trace inner chk (snd fs) (hist ++ [fst fs]) rest) as [[log rets] [s|p]];
+      cbn [bind fst snd]; reflexivity.
+Qed.
+
+(** Full characterisation of the trace: for some [k] (the index of the first
+    request whose tally panics, or the number of requests), exactly the first
+    [k] requests were forwarded and answered by the wrapped allocator. *)
+Lemma run_prof_trace_char inner chk reqs : forall slot hist log rets out,
+  run_prof_trace inner chk slot hist reqs = (log, rets, out) ->
+  exists k, (k <= length reqs)%nat /\
+    log = hist ++ firstn k reqs /\
+    rets = responses inner hist (firstn k reqs) /\
+    match out with
+    | Ok s => k = length reqs /\ slot_run chk slot (map op_of_req reqs) = Ok s
+    | Panic p =>
+        (k < length reqs)%nat /\
+        exists sk r, slot_run chk slot (map op_of_req (firstn k reqs)) = Ok sk /\
+                     nth_error reqs k = Some r /\ profiler_step chk sk r = Panic p
+    end.
+Proof.
+  induction reqs as [|r rest IH]; intros slot hist log rets out H.
+  - cbn [run_prof_trace] in H. inversion H. subst. exists 0%nat.
+    cbn [firstn length map]. rewrite app_nil_r. split; [lia|]. split; [reflexivity|]. split; [reflexivity|].
+    split; [reflexivity|]. destruct slot; reflexivity.
+  - cbn [run_prof_trace] in H. destruct (profiler_step chk slot r) as [fs|p] eqn:Es.
+    + destruct (run_prof_trace inner chk (snd fs) (hist ++ [fst fs]) rest) as [[log' rets'] out'] eqn:Et.
+      cbn [fst snd] in H. inversion H. subst log rets out. clear H.
+      destruct (IH _ _ _ _ _ Et) as [k [Hk [Hlog [Hrets Hout]]]].
+      assert (Hf : fst fs = r /\ slot_run chk slot [op_of_req r] = Ok (snd fs)).
+      { unfold profiler_step in Es. destruct slot as [i|].
+        - destruct (step chk i (op_of_req r)) as [i'|q] eqn:E1; cbn [bind] in Es; [|discriminate].
+          inversion Es. cbn [fst snd slot_run run_from]. rewrite E1. cbn [bind]. rewrite forward_id. split; reflexivity.
+        - inversion Es. cbn [fst snd slot_run]. rewrite forward_id. split; reflexivity. }
+      destruct Hf as [Hf1 Hf2]. rewrite Hf1 in *.
+      assert (Hcomp : forall ops, slot_run chk slot (op_of_req r :: ops) = slot_run chk (snd fs) ops).
+      { intros ops. destruct slot as [i|]; cbn [slot_run run_from] in *.
+        - destruct (step chk i (op_of_req r)) as [i'|q]; cbn [bind] in *; [|discriminate].
+          inversion Hf2. reflexivity.
+        - inversion Hf2. reflexivity. }
+      exists (S k). cbn [length firstn]. split; [lia|].
+      split; [rewrite Hlog, <- app_assoc; reflexivity|].
+      split; [rewrite responses_cons, Hrets; reflexivity|].
+      destruct out' as [s|p].
+      * destruct Hout as [Hk' Hs]. split; [lia|]. cbn [map]. rewrite Hcomp. exact Hs.
+      * destruct Hout as [Hk' [sk [r' [Hsk [Hnth Hp]]]]]. split; [lia|].
+        exists sk, r'. cbn [map nth_error]. rewrite Hcomp. repeat split; assumption.
+    + inversion H. subst log rets out. exists 0%nat. cbn [firstn length map]. rewrite app_nil_r.
+      split; [lia|]. split; [reflexivity|]. split; [reflexivity|]. split; [lia|].
+      exists slot, r. cbn [nth_error]. split; [destruct slot; reflexivity|]. split; [reflexivity|exact Es].
+Qed.
+
+(** When the (debug) tally panics at request [k]: the wrapped allocator has
+    received exactly the first [k] requests — none dropped, none added, nothing
+    for request [k] or later — and the caller got its answers to those. *)
+Theorem forwarded_prefix inner chk slot reqs log rets p :
+  run_prof_trace inner chk slot [] reqs = (log, rets, Panic p) ->
+  run_prof inner chk slot [] reqs = Panic p /\
+  exists k, (k < length reqs)%nat /\
+    log = firstn k reqs /\ length log = k /\
+    rets = responses inner [] (firstn k reqs) /\ length rets = k /\
+    (forall j, (j < k)%nat -> nth_error rets j = Some (inner (firstn (S j) reqs))) /\
+    exists sk r, run_prof inner chk slot [] (firstn k reqs) = Ok (firstn k reqs, rets, sk) /\
+                 nth_error reqs k = Some r /\ profiler_step chk sk r = Panic p.
+Proof.
+  intros H. split; [rewrite run_prof_trace_agrees, H; reflexivity|].
+  destruct (run_prof_trace_char _ _ _ _ _ _ _ _ H) as [k [Hk [Hlog [Hrets [Hlt [sk [r [Hsk [Hnth Hp]]]]]]]]].
+  cbn [app] in Hlog. exists k. split; [exact Hlt|]. split; [exact Hlog|].
+  split; [rewrite Hlog, firstn_length; lia|]. split; [exact Hrets|].
+  assert (Hlen : length (firstn k reqs) = k) by (rewrite firstn_length; lia).
+  split; [rewrite Hrets, responses_length; exact Hlen|].
+  split.
+  - intros j Hj. rewrite Hrets. rewrite responses_nth by (rewrite Hlen; exact Hj). cbn [app].
+    rewrite firstn_firstn. replace (Nat.min (S j) k) with (S j) by lia. reflexivity.
+  - exists sk, r. split; [|split; assumption].
+    rewrite run_prof_char, Hsk. cbn [bind app]. rewrite Hrets. reflexivity.
+Qed.
+
+(** And without a panic the trace is the run of [C09_transparent]. *)
+Theorem trace_ok inner chk slot reqs log rets s :
+  run_prof_trace inner chk slot [] reqs = (log, rets, Ok s) <->
+  run_prof inner chk slot [] reqs = Ok (log, rets, s).
+Proof.
+  rewrite run_prof_trace_agrees.
+  destruct (run_prof_trace inner chk slot [] reqs) as [[l r] [s'|p]]; split; intros E; inversion E; reflexivity.
+Qed.
+
+(** Debug build: the third request's tally overflows; two requests were
+    forwarded and answered, the third was not. *)
+Example forwarded_prefix_example :
+  run_prof_trace (fun h => RespPtr (N.of_nat (length h) * 4096)) true (Some info_init) []
+    [RAlloc (mkL 9223372036854775807 1); RDealloc 4096 (mkL 0 1); RAlloc (mkL 1 1); RAlloc (mkL 5 1)]
+  = ([RAlloc (mkL 9223372036854775807 1); RDealloc 4096 (mkL 0 1)], [RespPtr 4096; RespPtr 8192], Panic Overflow).
+Proof. vm_compute. reflexivity. Qed.
